@@ -252,10 +252,18 @@ func (r *Run) RunChildren(role string, n, children int, prefix string, perCase t
 				if !res.Crashed && !res.TimedOut {
 					return
 				}
-				if res.Exit == ExitAbortedCase && res.OpenCase == "" && res.LastEnded != "" {
-					// the child judged a case itself (e.g. non-termination) and gave up its process
-					var k int
-					fmt.Sscanf(strings.TrimPrefix(res.LastEnded, prefix), "%d", &k)
+				if res.Exit == ExitAbortedCase && (res.OpenCase != "" || res.LastEnded != "") {
+					// the child judged a case itself (non-termination, or inconclusive under load) and gave up its
+					// process: its verdict has been reported already, the exit is not a crash
+					c := res.OpenCase
+					if c == "" {
+						c = res.LastEnded
+					}
+					k := lo
+					fmt.Sscanf(strings.TrimPrefix(c, prefix), "%d", &k)
+					if k < lo {
+						k = lo
+					}
 					lo = k + 1
 					continue
 				}
